@@ -17,3 +17,9 @@ with open(inline.ALIASES_FILE, 'w') as fh:
     fh.write('# locals naming a constant on the confirmed tree (function<TAB>local); later ones are replaced by the constant\n')
     fh.write('\n'.join(al) + '\n')
 print(len(al), 'constant aliases')
+
+tu = inline.tuple_assigns(m)
+with open(inline.TUPLES_FILE, 'w') as fh:
+    fh.write('# tuple assignments `a, b = x, y` of the confirmed tree (function<TAB>statement); later ones are written out one by one\n')
+    fh.write('\n'.join(tu) + '\n')
+print(len(tu), 'tuple assignments')
